@@ -330,16 +330,20 @@ impl<'dbg> FatDieRef<'dbg, Function> {
         pc: GlobalAddress,
         needle: &str,
     ) -> Option<FatDieRef<'dbg, Variable>> {
-        weak_error!(self.deref())?.for_each_children_recursive_t(|child| {
+        // All valid DIEs with this name lie on one chain of nested lexical blocks and the walk is
+        // breadth-first, so the last valid match is the innermost (and, inside one block, the latest)
+        // binding: a shadowed name resolves to its innermost live binding.
+        let mut innermost = None;
+        weak_error!(self.deref())?.for_each_children_recursive(|child| {
             if child.tag() == gimli::DW_TAG_variable {
                 let var_ref = FatDieRef::new_var(self.debug_info, self.unit_idx, child.offset());
 
                 if child.name().as_deref() == Some(needle) && var_ref.valid_at(pc) {
-                    return Some(var_ref);
+                    innermost = Some(var_ref);
                 }
             }
-            None
-        })
+        });
+        innermost
     }
 
     pub fn parameters(&self) -> Vec<FatDieRef<'dbg, Argument>> {
